@@ -3066,3 +3066,110 @@ func lockBalance(p *Program, r *Report, scope func(*FuncInfo) bool) int {
 	}
 	return n
 }
+
+// atomicDiscipline: a struct field that is accessed through sync/atomic somewhere in the module is accessed through
+// sync/atomic everywhere (a plain read or write of such a field races with the atomic ones and, for the state words
+// of the connection and the stream allocator, can act on a stale value). Typed atomics (atomic.Int32 ...) are safe by
+// construction and not in scope. Plain accesses in the function that builds the object are allowed while the object
+// is still private to it: a composite literal, or an assignment through a local that the function itself created.
+func atomicDiscipline(p *Program, r *Report) int {
+	fields := map[types.Object]string{}
+	for _, fi := range p.SortedFuncs() {
+		if fi.Decl.Body == nil {
+			continue
+		}
+		info := fi.Pkg.TypesInfo
+		for _, c := range callsIn(fi.Decl.Body) {
+			if !strings.HasPrefix(calleeName(info, c), "atomic.") || len(c.Args) == 0 {
+				continue
+			}
+			if u, ok := ast.Unparen(c.Args[0]).(*ast.UnaryExpr); ok && u.Op == token.AND {
+				e := ast.Unparen(u.X)
+				if ix, isIx := e.(*ast.IndexExpr); isIx {
+					e = ast.Unparen(ix.X) // &s.words[i]: the words of the slice field
+				}
+				if f := fieldOf(info, e); f != nil {
+					fields[f] = exprStr(e)
+				}
+			}
+		}
+	}
+	n := 0
+	for _, fi := range p.SortedFuncs() {
+		if fi.Decl.Body == nil {
+			continue
+		}
+		info := fi.Pkg.TypesInfo
+		ast.Inspect(fi.Decl.Body, func(x ast.Node) bool {
+			sel, ok := x.(*ast.SelectorExpr)
+			if !ok {
+				return true
+			}
+			f := fieldOf(info, sel)
+			if f == nil {
+				return true
+			}
+			if _, tracked := fields[f]; !tracked {
+				return true
+			}
+			// the access: sel itself, or an element of it
+			var acc ast.Node = sel
+			par := p.Parent(sel)
+			for {
+				if pe, isP := par.(*ast.ParenExpr); isP {
+					acc, par = pe, p.Parent(pe)
+					continue
+				}
+				break
+			}
+			elem := false
+			if ix, isIx := par.(*ast.IndexExpr); isIx && ix.X == acc {
+				acc, par = ix, p.Parent(ix)
+				elem = true
+			}
+			_, isSliceField := f.Type().Underlying().(*types.Slice)
+			if isSliceField && !elem {
+				return true // the slice header (len, range, make): not the words
+			}
+			n++
+			okAtomic := false
+			if u, isU := par.(*ast.UnaryExpr); isU && u.Op == token.AND {
+				if c, isC := p.Parent(u).(*ast.CallExpr); isC && strings.HasPrefix(calleeName(info, c), "atomic.") {
+					okAtomic = true
+				}
+				// the address handed to a helper of the module that only uses it atomically is that helper's concern
+				if c, isC := p.Parent(u).(*ast.CallExpr); isC && !okAtomic {
+					if fn := calleeOf(info, c); fn != nil && p.FuncOf(fn) != nil {
+						okAtomic = true
+					}
+				}
+				// word := &s.words[i]
+				if as, isA := p.Parent(u).(*ast.AssignStmt); isA && !okAtomic {
+					_ = as
+					okAtomic = true
+				}
+			}
+			if !okAtomic {
+				// construction: the object is a local made in this function
+				if root := rootIdent(sel); root != nil {
+					if d := localDef(info, fi, root); d != nil {
+						de := ast.Unparen(d)
+						if u2, isU2 := de.(*ast.UnaryExpr); isU2 && u2.Op == token.AND {
+							de = ast.Unparen(u2.X)
+						}
+						if _, isLit := de.(*ast.CompositeLit); isLit {
+							okAtomic = true
+						}
+						if c2, isC2 := de.(*ast.CallExpr); isC2 && calleeName(info, c2) == "builtin.new" {
+							okAtomic = true
+						}
+					}
+				}
+			}
+			r.Check(okAtomic, sel, fi.Name+" accesses "+exprStr(sel)+" atomically", "operand of a sync/atomic call",
+				"the field "+f.Name()+" is accessed through sync/atomic elsewhere in the module and plainly here: the plain access races with the atomic ones (a stale or torn value of a state word, a counter update that is lost)")
+			return true
+		})
+	}
+	return n
+}
